@@ -2,18 +2,6 @@
 import HSModel.Proofs.AbsLemmas
 namespace HS
 
-/-- the pid string a call is addressed to, if it has one -/
-def Call.pidStr : Call → Option Str
-  | .storeObject (.str p) .. => some p
-  | .tagObject (.str p) _ => some p
-  | .storeMetadata (.str p) .. => some p
-  | .retrieveObject (.str p) => some p
-  | .retrieveMetadata (.str p) _ => some p
-  | .deleteObject (.str p) => some p
-  | .deleteMetadata (.str p) _ => some p
-  | .getHexDigest (.str p) _ => some p
-  | _ => none
-
 theorem checkString_str {s p : Str} (h : checkString (.str s) = .ok p) : p = s := by
   simp only [checkString] at h
   split at h
